@@ -29,14 +29,20 @@ type Binder struct {
 // CType is a (very small) type expression: optional '*' / '[]' prefixes on a
 // possibly qualified name.
 type CType struct {
-	Ptr   int
-	Slice bool
-	Pkg   string
-	Name  string
-	Raw   string // a raw SMT sort, e.g. (Array Int Iface)
+	PtrOuter int // pointers applied to the slice type (*[]T)
+	Ptr      int
+	Slice    bool
+	Pkg      string
+	Name     string
+	Raw      string // a raw SMT sort, e.g. (Array Int Iface)
 }
 
 func (t *CType) String() string {
+	if t.PtrOuter > 0 {
+		u := *t
+		u.PtrOuter = 0
+		return strings.Repeat("*", t.PtrOuter) + u.String()
+	}
 	s := strings.Repeat("*", t.Ptr)
 	if t.Slice {
 		s = "[]" + s
@@ -254,6 +260,15 @@ func (p *cparser) typ() *CType {
 	}
 	for p.accept("*") {
 		t.Ptr++
+	}
+	if !t.Slice && p.accept("[]") {
+		// *[]T: pointers to a slice
+		t.Slice = true
+		t.PtrOuter = t.Ptr
+		t.Ptr = 0
+		for p.accept("*") {
+			t.Ptr++
+		}
 	}
 	n := p.next()
 	if n.kind != "id" {
